@@ -97,6 +97,17 @@ v('C07', 'fire', KA, 'cho_solve((L, True), HP', 'cho_solve((L, False), HP')
 v('C07', 'fire', KA, 'S = HP @ H.T + R', 'S = HP @ H.T')
 v('C07 C19', 'fire', KA, 'K = cho_solve((L, True), HP, overwrite_b=True).T', 'K = cho_solve((L, True), P, overwrite_b=True).T')
 v('C07', 'silent', KA, 'U = np.eye(len(x)) - K.dot(H)', 'U = np.identity(len(x)) - K @ H')
+T_ = 'transform.py'
+v('C16', 'fire', T_, 'a4 = 2.5 * a2', 'a4 = 2.0 * a2', 'Olson series constant')
+v('C16', 'fire', T_, 'a3 = a1 * e2 / 2', 'a3 = a1 * e2 / 3', 'Olson series constant')
+v('C16', 'fire', T_, 'a5 = a1 + a3', 'a5 = a1 - a3', 'Olson series constant (arccos branch only)')
+v('C16', 'fire', T_, 'p = m / (rf / g + f)', 'p = m / (rf + f)', 'Newton step with the wrong radius')
+v('C16', 'fire', T_, 'alt = f + 0.5 * m * p', 'alt = f + m * p', 'second-order altitude term')
+v('C16', 'fire', T_, 'u = w - rg * c', 'u = w - rf * c', 'residual uses the wrong radius')
+v('C16', 'fire', T_, 'np.arctan2(r_e[:, 1], r_e[:, 0])', 'np.arctan2(r_e[:, 0], r_e[:, 1])', 'longitude arguments swapped')
+v('C16', 'silent', T_, 'm = c2 > 0.3', 'm = c2 > 0.5', 'branch threshold: both branches are valid everywhere')
+v('C16', 'silent', T_, 'rg = a / g**0.5', 'rg = a / np.sqrt(g)', 'sqrt spelling')
+v('C16', 'silent', T_, 'a2 = a1 * a1', 'a2 = a1 ** 2', 'square spelling')
 v('C14 C11', 'fire', 'inertial_sensor.py', 'self.scale_misal_modelled = bool(output_axes)', 'self.scale_misal_modelled = any(output_axes)', 'seeded C14 round 2: truthiness of index values instead of list length')
 v('C14', 'silent', 'inertial_sensor.py', 'self.scale_misal_modelled = bool(output_axes)', 'self.scale_misal_modelled = len(scale_misal_states) > 0', 'length test on the sibling list')
 v('C14', 'fire', 'inertial_sensor.py', 'self.scale_misal_modelled = bool(output_axes)', 'self.scale_misal_modelled = sum(input_axes) > 0', 'sum of indices as a non-emptiness test')
